@@ -198,6 +198,19 @@ def rnd_tests(ctx, n, label="rnd", **kw):
     return out
 
 
+def aux_tests(ctx, n, label="aux", mc=None, **kw):
+    """Histories in which a second collection of the same database is written, deleted from, flushed and swept between
+    the calls on the first one (harness/aux.go; oracle Conf_X): random ones, and a sample of model-derived ones."""
+    out = []
+    for t in rnd_tests(ctx, n, label=label, **kw):
+        out.append(gen.with_aux(t, ctx.rng))
+    for t in (mc or [])[:n]:
+        t2 = gen.with_aux(t, ctx.rng, p=0.5)
+        if t2.get("aux"):
+            out.append(dict(t2, id=label + "-" + t["id"]))
+    return [t for t in out if t.get("aux")]
+
+
 # --------------------------------------------------------------------------- the properties
 
 def check_C01(ctx, w):
@@ -208,7 +221,10 @@ def check_C01(ctx, w):
                      limit=ctx.q(4000, 60000))
     tests += rnd_tests(ctx, ctx.q(150, 3000), nops=ctx.q(30, 50))
     tests += sim_tests(ctx, w, "sim", ctx.q(64, 1600), slots=3, kvals=3, avals=2, maxbatch=2, maxops=ctx.q(8, 12), bfilter="PairBatch", get=True)
-    seq_pipeline(ctx, w, tests, ["Conf_C01"])
+    # Drop + Create on the live handle, and Flush(o) of single objects, at every position of the bounded histories
+    tests += mc_tests(ctx, w, "dr", slots=2, kvals=2, avals=1, maxbatch=1, maxops=ctx.q(4, 5), bfilter="NoBatch", get=True, drop=True, flushone=True, limit=ctx.q(2000, 30000))
+    tests += aux_tests(ctx, ctx.q(100, 1500), mc=ctx.rng.sample(tests, min(len(tests), ctx.q(300, 3000))), nops=ctx.q(25, 40))
+    seq_pipeline(ctx, w, tests, ["Conf_C01", "Conf_X", "Conf_Drop", "Conf_C10"])
 
 
 def check_C03(ctx, w):
@@ -216,7 +232,8 @@ def check_C03(ctx, w):
     tests = mc_tests(ctx, w, "mc", slots=ctx.q(2, 3), kvals=3, avals=1, maxbatch=2, maxops=ctx.q(3, 4), bfilter=ctx.q("NoBatch", "PairBatch"), get=False,
                      limit=ctx.q(4000, 60000))
     tests += rnd_tests(ctx, ctx.q(150, 3000), nops=ctx.q(30, 50), p_del=0.25)
-    seq_pipeline(ctx, w, tests, ["Conf_C03"])
+    tests += aux_tests(ctx, ctx.q(100, 1500), nops=ctx.q(25, 40), p_del=0.25)
+    seq_pipeline(ctx, w, tests, ["Conf_C03", "Conf_X"])
 
 
 def check_C06(ctx, w):
@@ -282,7 +299,8 @@ def check_C04(ctx, w):
     tests = mc_tests(ctx, w, "mc", slots=2, kvals=2, avals=2, maxbatch=2, maxops=ctx.q(3, 4), bfilter="PairBatch", get=False, limit=ctx.q(3000, 50000))
     tests += rnd_tests(ctx, ctx.q(200, 3000), nops=ctx.q(25, 50), p_reopen=0.2, abandon=True)
     tests += sim_tests(ctx, w, "sim", ctx.q(64, 1600), slots=3, kvals=3, avals=2, maxbatch=1, maxops=ctx.q(8, 12), bfilter="NoBatch", get=False)
-    seq_pipeline(ctx, w, tests, ["Conf_C04"])
+    tests += aux_tests(ctx, ctx.q(100, 1500), mc=ctx.rng.sample(tests, min(len(tests), ctx.q(300, 3000))), nops=ctx.q(25, 40), p_reopen=0.2, abandon=True)
+    seq_pipeline(ctx, w, tests, ["Conf_C04", "Conf_X"])
 
 
 def check_C07(ctx, w):
@@ -652,7 +670,13 @@ def check_C10(ctx, w):
         tests += mc_tests(ctx, w, "mc%d%d_" % (thr, tmo), slots=2, kvals=2, avals=1, maxbatch=1, maxops=ctx.q(4, 5), bfilter="NoBatch", get=False, flusher=True, thr=thr, tmo=tmo,
                           cfgs="AsyncCfgs", limit=ctx.q(1500, 15000), convert_kw=dict(thr=thr, tmo_ms=tmo * 100, vclock=True))
     tests += gen_tests(ctx, ctx.q(200, 3000), gen.async_test, "as", nops=ctx.q(14, 24))
-    seq_pipeline(ctx, w, tests, ["Conf_C10"])
+    # Flush(o) / FlushAndCommit(o) of single objects at every position of every history of the bounded model (all settings; the
+    # argument in three spellings), each followed by the sweeps and the close + reopen of the model
+    # and Drop + Create on the live handle: nothing pending or cached of the dropped database may come back
+    tests += mc_tests(ctx, w, "f1_", slots=2, kvals=2, avals=1, maxbatch=1, maxops=ctx.q(4, 5), bfilter="NoBatch", get=False, flushone=True, drop=True, cfgs="AllCfgs", limit=ctx.q(3000, 30000))
+    # "Close (for every collection)": a second collection with pending writes of its own; FlushAll* of one collection, Close of both
+    tests += aux_tests(ctx, ctx.q(150, 2000), nops=ctx.q(20, 35), cfgs=[(False, True), (True, True)], p_reopen=0.15, p_del=0.25)
+    seq_pipeline(ctx, w, tests, ["Conf_C10", "Conf_X", "Conf_Drop"])
 
 
 def check_C17(ctx, w):
@@ -711,9 +735,10 @@ def check_C18(ctx, w):
     tests += rnd_tests(ctx, ctx.q(150, 2500), nops=ctx.q(25, 40), cfgs=[(False, False), (True, False)])
     # asynchronous configurations: the layout is judged once Close has returned
     tests += rnd_tests(ctx, ctx.q(150, 2500), nops=ctx.q(20, 40), cfgs=[(False, True), (True, True)], p_reopen=0.12, p_del=0.25, label="rasync")
+    tests += aux_tests(ctx, ctx.q(100, 1500), nops=ctx.q(20, 35), p_reopen=0.12)
     for t in tests:
         t["ops"].append({"op": "reopen", "close": True, "create": False})
-    seq_pipeline(ctx, w, tests, ["Conf_C18"])
+    seq_pipeline(ctx, w, tests, ["Conf_C18", "Conf_X"])
     # golden corpus: directories written by the pinned release (tools/mkgolden.py) are opened by the current code;
     # the abstract state is rebuilt from the writes the pinned release acknowledged, then sweeps, writes and a reopen follow
     import glob
@@ -872,5 +897,8 @@ def write_evidence(ctx, inconclusive=None):
           "assumptions": ctx.assumptions or ["the harness projects Go values to integer codes correctly (universe order checked at start-up)",
                                               "TLC evaluates the invariants of spec/SodTrace.tla correctly"],
           "wall_s": round(time.time() - ctx.t0, 1), "violations": len(ctx.failures)}
-    with open(os.path.join(vlib.VERIF, "evidence", ctx.pid + ".json"), "w") as f:
+    # evidence describes /repo itself: a run against another tree (VERIF_REPO: pinned / seeded worktrees) never touches it
+    edir = os.path.join(vlib.VERIF, "evidence") if os.path.realpath(vlib.REPO) == "/repo" else os.path.join(vlib.VERIF, ".work", "evidence-other-tree")
+    os.makedirs(edir, exist_ok=True)
+    with open(os.path.join(edir, ctx.pid + ".json"), "w") as f:
         json.dump(ev, f, indent=1)
